@@ -1017,5 +1017,12 @@ _jobs15 = jobs
 
 def jobs(tier="quick", seed=0):
     yield from _jobs15(tier, seed)
+    # the contract of parse_cfi_instructions that the .cfi_escape obligations above ASSUME (modular stub) is discharged here too,
+    # so that C15 does not rest on an assumption checked only under another property
+    from . import c14_expr
+    for j in c14_expr.jobs(tier, seed):
+        if "/parse_cfi/" in j.id or "/lemma/" in j.id:
+            j.id = "C15/dep/" + j.id
+            yield j
     yield Job("C15/sequences-bounded", sequences_bounded(seed, 400 if tier == "quick" else 6000), kind="B",
               func="gtirb_rewriting.dwarf.cfi_eval:evaluate_cfi_directives")
